@@ -795,15 +795,13 @@ func (push *Push) getEVMEvent(subscribe *types.PushSubscribeReq, startSeq int64,
 			evmLogsPerBlk.SeqNum = i
 		}
 		size := types.Size(evmLogsPerBlk)
-		if len(evmLogsPerBlk.TxAndLogs) > 0 {
-			// 与getBlockSeqs一致: 第一个匹配的区块总是推送(即使超过maxSize), 之后的区块放不下时留给下一批
-			if totalSize != 0 && totalSize+size >= maxSize {
-				break
-			}
+		if len(evmLogsPerBlk.TxAndLogs) > 0 && totalSize+size < maxSize {
 			evmlogs.Logs4EVMPerBlk = append(evmlogs.Logs4EVMPerBlk, evmLogsPerBlk)
 			totalSize += size
 			chainlog.Debug("get EVMEvent subscribed for pushing", "Name", subscribe.Name, "contract:", subscribe.Contract,
 				"height=", evmLogsPerBlk.Height)
+		} else if totalSize+size > maxSize {
+			break
 		}
 		actualIterCount++
 	}
